@@ -90,7 +90,7 @@ func (e *Exec) Go(name string, fn func()) *Thread {
 // Point is a scheduling point placed before an atomic operation of the code under test.
 func Point(label string) {
 	e := active
-	if e == nil {
+	if e == nil || e.cur == nil { // outside an execution, or during its sequential setup phase
 		return
 	}
 	t := e.cur
@@ -107,7 +107,7 @@ func Point(label string) {
 // thread is resumed pred is true and nothing ran in between.
 func Block(label string, pred func() bool) {
 	e := active
-	if e == nil {
+	if e == nil || e.cur == nil {
 		if !pred() {
 			panic("sched.Block outside an execution would block forever: " + label)
 		}
@@ -387,6 +387,7 @@ func runOne(h Harness, opt Options, stack *[]frame, seen map[string]struct{}, re
 	if len(res.SampleTraces) < 3 {
 		res.SampleTraces = append(res.SampleTraces, append([]Step(nil), e.Trace...))
 	}
+	e.cur = nil // the harness may call shimmed operations from OnEnd: they are plain calls now
 	if h.OnEnd != nil {
 		if err := h.OnEnd(e); err != nil {
 			return mk("end", err.Error()), false
@@ -443,6 +444,7 @@ func Replay(h Harness, schedule []int) (*Failure, []Step) {
 		}
 	}
 	tr := append([]Step(nil), e.Trace...)
+	e.cur = nil
 	if h.OnEnd != nil {
 		if err := h.OnEnd(e); err != nil {
 			return &Failure{Kind: "end", Msg: err.Error(), Schedule: schedule, Trace: tr}, tr
